@@ -92,7 +92,9 @@ def judge(ir, fd, documented, style, active):
         else:
             return "parameters %r != %r" % (got, names)
     if got != names:
-        if not ("KF-C07-doc-order" in active and _doc_order_region(names, documented)):
+        # known finding: documented parameters first (docstring order), then the rest in source order, a documented **kw last.
+        # ONLY that exact order is tolerated - any other order is a violation.
+        if not ("KF-C07-doc-order" in active and got == _doc_first_order(names, documented)):
             return "order %r != %r" % (got, names)
     for n, dflt, ann, kind in m:
         e = ir["params"][n]
@@ -116,6 +118,11 @@ def judge(ir, fd, documented, style, active):
         elif e.get("doc"):
             return "%s: prose %r attached to an undocumented parameter" % (n, e.get("doc"))
     return ""
+
+
+def _doc_first_order(names, documented):
+    doc = [n for n in documented if n in names and n != "kw"]
+    return doc + [n for n in names if n not in doc and n != "kw"] + (["kw"] if "kw" in names else [])
 
 
 def _doc_order_region(names, documented):
@@ -208,7 +215,7 @@ def cls_merge(style, npos, nd, docmask, active):
         got = list(ir["params"].keys())
         if sorted(got) != sorted(x[0] for x in m):
             return False
-        if got != [x[0] for x in m] and not ("KF-C07-doc-order" in active and _doc_order_region([x[0] for x in m], documented)):
+        if got != [x[0] for x in m] and not ("KF-C07-doc-order" in active and got == _doc_first_order([x[0] for x in m], documented)):
             return False
         for n, dflt, ann, kind in m:
             e = ir["params"][n]
